@@ -1743,7 +1743,7 @@ func sizeOfType(t types.Type) int64 {
 // allocGuard (property C09 only): an allocation whose element count is a program value must be small or within
 // the memory budget established by a passed guard (object.MustBeOk / SizeOk).
 func (ex *Exec) allocGuard(reach Term, count Term, elem types.Type, at ssa.Instruction, what string) {
-	if !hasProp(ex.q.props, "C09") || ex.skipAlloc {
+	if !ex.q.propActive("C09") || ex.skipAlloc {
 		return
 	}
 	if isAtom(count.S) && !strings.ContainsAny(count.S, "!_") {
